@@ -70,11 +70,11 @@ func v1Desc(d *dynamodb.TableDescription) J {
 	}
 	g := []interface{}{}
 	for _, x := range d.GlobalSecondaryIndexes {
-		g = append(g, J{"name": b2l(aws.StringValue(x.IndexName)), "count": aws.Int64Value(x.ItemCount), "schema": ks(x.KeySchema)})
+		g = append(g, J{"name": b2l(aws.StringValue(x.IndexName)), "count": aws.Int64Value(x.ItemCount), "schema": ks(x.KeySchema), "proj": v1Proj(x.Projection)})
 	}
 	l := []interface{}{}
 	for _, x := range d.LocalSecondaryIndexes {
-		l = append(l, J{"name": b2l(aws.StringValue(x.IndexName)), "count": aws.Int64Value(x.ItemCount), "schema": ks(x.KeySchema)})
+		l = append(l, J{"name": b2l(aws.StringValue(x.IndexName)), "count": aws.Int64Value(x.ItemCount), "schema": ks(x.KeySchema), "proj": v1Proj(x.Projection)})
 	}
 	return J{"name": b2l(aws.StringValue(d.TableName)), "count": aws.Int64Value(d.ItemCount), "schema": ks(d.KeySchema), "gsi": g, "lsi": l}
 }
@@ -336,4 +336,12 @@ func (s *session) runV1(name string, op J) J {
 		return J{"r": "ok"}
 	}
 	return J{"r": "BadOp"}
+}
+
+// the projection type of an index description ("" when the description carries none)
+func v1Proj(p *dynamodb.Projection) string {
+	if p == nil {
+		return ""
+	}
+	return aws.StringValue(p.ProjectionType)
 }
